@@ -70,6 +70,13 @@ def run(ctx):
     except _vlib.Fail as e:
         gen_fail = str(e)       # keep going: the differential runs below search for a concrete failing input
     try:
+        # memory safety of the SSSE3 routines on the instrumented interpreter, for the instruction lists as re-read now
+        ctx.check_genlink(lambda out: ["python3", _os0.path.join(_vlib.VERIF, "tools", "asm2coq.py"),
+                                       _os0.path.join(_vlib.REPO, "gf2p16", "slice_amd64.s"), out],
+                          "Ssse3Gen", "Ssse3BoundsLink", "C09.bounds.gen")
+    except _vlib.Fail as e:
+        gen_fail = (gen_fail + " | " if gen_fail else "") + str(e)
+    try:
         ctx.check_genlink(lambda out: ["python3", _os0.path.join(_vlib.VERIF, "tools", "asm2coq.py"),
                                        _os0.path.join(_vlib.REPO, "gf2p16", "slice_amd64.s"), out, "scalar"],
                           "ScalarGen", "ScalarGenLink", "C09.scalar.gen")
